@@ -1,4 +1,6 @@
 import SqlgrepModel.Model.Eval
+import SqlgrepModel.Lemmas.NumericOrder
+import SqlgrepModel.Lemmas.Utf8Order
 /-
 C03 (expression level) — the documented meaning of expressions, for ALL operands, environments and
 oracle tables. The model is `Sqlgrep.eval` (Model/Eval.lean), mirroring
@@ -341,5 +343,181 @@ example : eval {} {} (.inList false (.value (.text [97])) [.value (.int 1)]) = .
 example : eval {} {} (.compare .gt (.value (.int 2)) (.value (.real 0x3ff8000000000000))) = .ok (.bool true) := by rfl
 example : eval {} {} (.arith .add (.value (.int 9223372036854775807)) (.value (.int 1))) = .error .undefinedOperation := by rfl
 example : eval {} {} (.arith .div (.value (.int 1)) (.value (.int 0))) = .error .undefinedOperation := by rfl
+
+/-! ## NEW (review gap, comparison clause): "comparisons compare by value (numbers numerically, text by code
+point, timestamps by instant)"
+
+`Compare` evaluates to `applyCmp op (compareValues lv rv)` (`compare_is_order`); the theorems below say what
+that order IS on numbers, TEXT and TIMESTAMP. The order-theoretic laws of `compareValues` are in Props/C16.lean
+(`numbers_compare_by_value`, `where_order_is_total_on_numbers`, `where_order_agrees_with_group_order_same_type`). -/
+
+/-- the six comparison operators read over an order given by its three-way comparison -/
+theorem applyCmp_meaning (o : Ordering) :
+    applyCmp .eq o = decide (o = .eq) ∧ applyCmp .ne o = decide (o ≠ .eq) ∧
+    applyCmp .lt o = decide (o = .lt) ∧ applyCmp .le o = decide (o ≠ .gt) ∧
+    applyCmp .gt o = decide (o = .gt) ∧ applyCmp .ge o = decide (o ≠ .lt) := by
+  cases o <;> decide
+
+/-- a comparison of two non-NULL operands that need no coercion (same type, or INT with REAL) is the operator
+applied to the three-way result of the WHERE order `compareValues` -/
+theorem compare_is_order (op : CmpOp) (l r : Expr) (lv rv : Value)
+    (hl : eval O env l = .ok lv) (hr : eval O env r = .ok rv)
+    (hp : PlainComparable O lv rv) (nl : lv.isNull = false) (nr : rv.isNull = false) :
+    eval O env (.compare op l r) = .ok (.bool (applyCmp op (compareValues lv rv))) := by
+  unfold PlainComparable at hp
+  simp only [eval, hl, hr, bind, Outcome.bind, hp, nl, nr, pure]
+  simp
+
+theorem plainComparable_numbers (lv rv : Value) (hl : isNumber lv = true) (hr : isNumber rv = true) :
+    PlainComparable O lv rv := by
+  cases lv <;> simp [isNumber] at hl <;> cases rv <;> simp [isNumber] at hr <;>
+    simp [PlainComparable, prepCompare, coerceTs, Outcome.bind, Value.isNull, typesComparable, Value.valueType]
+
+/-- what an operator says about two exact values -/
+def holdsOn (op : CmpOp) (a b : Dy) : Bool :=
+  match op with
+  | .eq => decide (Dy.Eqv a b) | .ne => !decide (Dy.Eqv a b)
+  | .lt => decide (a < b) | .le => decide (a ≤ b)
+  | .gt => decide (b < a) | .ge => decide (b ≤ a)
+
+/-- **numbers compare numerically**: for operands that are INT or finite REAL in any mix, each of
+`= != < <= > >=` holds exactly when it holds between the exact numeric values (`numValue`: the integer, resp. the
+dyadic value `±mantissa·2^exponent` of the bit pattern; order `Dy.cmp` = order of the numbers, see
+Props/C16.lean `numbers_compare_by_value`, `value_order_laws`). Non-finite REAL operands: see
+`cmp_numeric_nonfinite`. -/
+theorem cmp_numeric_by_value (op : CmpOp) (l r : Expr) (lv rv : Value)
+    (hl : eval O env l = .ok lv) (hr : eval O env r = .ok rv)
+    (fl : isFiniteNumber lv = true) (fr : isFiniteNumber rv = true) :
+    eval O env (.compare op l r) = .ok (.bool (holdsOn op (numValue lv) (numValue rv))) := by
+  have nl : isNumber lv = true := by cases lv <;> simp_all [isFiniteNumber, isNumber]
+  have nr : isNumber rv = true := by cases rv <;> simp_all [isFiniteNumber, isNumber]
+  have il : lv.isNull = false := by cases lv <;> simp_all [isNumber, Value.isNull]
+  have ir : rv.isNull = false := by cases rv <;> simp_all [isNumber, Value.isNull]
+  rw [compare_is_order O env op l r lv rv hl hr (plainComparable_numbers O lv rv nl nr) il ir,
+    compareValues_eq_value_cmp lv rv fl fr]
+  congr 2
+  have hs := Dy.cmp_swap (numValue lv) (numValue rv)
+  cases op <;> cases h : Dy.cmp (numValue lv) (numValue rv) <;>
+    simp [holdsOn, applyCmp, Dy.lt_def, Dy.le_def, Dy.Eqv, hs, h, Ordering.swap]
+
+/-- numbers in general (±inf and NaN included): the comparison is the operator applied to the comparison of the
+integer keys `(numClass, numUnits)` — class −1 for −inf, 0 for INT and finite REAL, 1 for +inf, 2 for NaN; then the
+exact value in units of 2^-1074. So ±inf are below/above every finite number and every NaN is equal to every NaN
+and greater than every other number (as in the derived order of REAL). -/
+theorem cmp_numeric_nonfinite (op : CmpOp) (l r : Expr) (lv rv : Value)
+    (hl : eval O env l = .ok lv) (hr : eval O env r = .ok rv)
+    (nl : isNumber lv = true) (nr : isNumber rv = true) :
+    eval O env (.compare op l r) = .ok (.bool (applyCmp op
+      ((compare (numClass lv) (numClass rv)).then (compare (numUnits lv) (numUnits rv))))) := by
+  have il : lv.isNull = false := by cases lv <;> simp_all [isNumber, Value.isNull]
+  have ir : rv.isNull = false := by cases rv <;> simp_all [isNumber, Value.isNull]
+  rw [compare_is_order O env op l r lv rv hl hr (plainComparable_numbers O lv rv nl nr) il ir,
+    compareValues_eq_key lv rv nl nr]
+
+-- non-vacuity: 2 > 1.5; 2^53+1 (INT) > 2^53 (REAL) and not equal; 0 = -0.0
+example : eval {} {} (.compare .gt (.value (.int 2)) (.value (.real 0x3ff8000000000000))) = .ok (.bool true) ∧
+    isFiniteNumber (.real 0x3ff8000000000000) = true ∧ holdsOn .gt (numValue (.int 2)) (numValue (.real 0x3ff8000000000000)) = true := ⟨rfl, by decide, by decide⟩
+example : eval {} {} (.compare .eq (.value (.int (2 ^ 53 + 1))) (.value (.real 0x4340000000000000))) = .ok (.bool false) ∧
+    eval {} {} (.compare .gt (.value (.int (2 ^ 53 + 1))) (.value (.real 0x4340000000000000))) = .ok (.bool true) := ⟨rfl, rfl⟩
+-- NaN = NaN, NaN > +inf, NaN > every INT in WHERE comparisons
+example : eval {} {} (.compare .eq (.value (.real 0x7ff8000000000000)) (.value (.real 0xfff8000000000001))) = .ok (.bool true) ∧
+    eval {} {} (.compare .gt (.value (.real 0x7ff8000000000000)) (.value (.real 0x7ff0000000000000))) = .ok (.bool true) ∧
+    eval {} {} (.compare .lt (.value (.int 9223372036854775807)) (.value (.real 0x7ff8000000000000))) = .ok (.bool true) := ⟨rfl, rfl, rfl⟩
+example : holdsOn .eq (numValue (.real 0)) (numValue (.real 0x8000000000000000)) = true ∧
+    holdsOn .le (numValue (.real 1)) (numValue (.real 0x0010000000000000)) = true := by decide
+
+/-! ### text by code point -/
+
+/-- **text compares by code point**: two TEXT operands — the UTF-8 encodings (`Utf8.encode`, = `char::encode_utf8`
+per character) of the character strings `a` and `b`; the model stores TEXT as its bytes and compares bytes, like
+Rust's `str` — compare as the sequences of their code point numbers do, lexicographically (first differing code
+point decides; a proper prefix is smaller): core's `compare` on `List Nat`. Holds for every `Char` (surrogates
+are not `Char`s; the byte-order fact itself needs no range restriction, `Utf8.encodeNat_lt`). -/
+theorem cmp_text_codepoint (op : CmpOp) (l r : Expr) (a b : List Char)
+    (hl : eval O env l = .ok (.text (Utf8.encode a))) (hr : eval O env r = .ok (.text (Utf8.encode b))) :
+    eval O env (.compare op l r) = .ok (.bool (applyCmp op (compare (a.map Char.toNat) (b.map Char.toNat)))) := by
+  have hp : PlainComparable O (.text (Utf8.encode a)) (.text (Utf8.encode b)) := by
+    simp [PlainComparable, prepCompare, coerceTs, Outcome.bind, Value.isNull, typesComparable, Value.valueType]
+  rw [compare_is_order O env op l r _ _ hl hr hp rfl rfl]
+  simp only [compareValues, Value.cmp]
+  rw [Utf8.cmpBytes_encode, Utf8.cmpBytes_eq_compare]
+
+/-- the same order stated on the derived order of values (GROUP BY, MIN/MAX, ORDER of array_unique …), and
+through the strings' own `<` (lexicographic on characters by code point) and `=` -/
+theorem text_order_is_codepoint_order (a b : List Char) :
+    Value.cmp (.text (Utf8.encode a)) (.text (Utf8.encode b)) = compare (a.map Char.toNat) (b.map Char.toNat) ∧
+    (Value.cmp (.text (Utf8.encode a)) (.text (Utf8.encode b)) = .lt ↔ a < b) ∧
+    (Value.cmp (.text (Utf8.encode a)) (.text (Utf8.encode b)) = .eq ↔ a = b) := by
+  simp only [Value.cmp]
+  refine ⟨by rw [Utf8.cmpBytes_encode, Utf8.cmpBytes_eq_compare], ?_, ?_⟩
+  · rw [Utf8.cmpBytes_encode]; exact Utf8.cmpBytes_map_toNat_lt_iff a b
+  · rw [Value.cmpBytes_eq_iff]
+    exact ⟨Utf8.encode_injective a b, fun h => by rw [h]⟩
+
+-- non-vacuity: "é" (U+E9, bytes C3 A9) < "€" (U+20AC, E2 82 AC) < "😀" (U+1F600, F0 9F 98 80); "z" < "é"; "a" < "ab"
+example : Utf8.encode "é".toList = [0xC3, 0xA9] ∧ Utf8.encode "€".toList = [0xE2, 0x82, 0xAC] ∧
+    Utf8.encode "😀".toList = [0xF0, 0x9F, 0x98, 0x80] := by decide
+example : eval {} {} (.compare .lt (.value (.text (Utf8.encode "zé".toList))) (.value (.text (Utf8.encode "z€".toList)))) = .ok (.bool true) := rfl
+example : compare ("zé".toList.map Char.toNat) ("z€".toList.map Char.toNat) = .lt ∧
+    compare ("a".toList.map Char.toNat) ("ab".toList.map Char.toNat) = .lt ∧
+    compare ("€".toList.map Char.toNat) ("😀".toList.map Char.toNat) = .lt := by decide
+
+/-! ### timestamps by instant -/
+
+/-- **timestamps compare by instant**: for TIMESTAMP operands `(day, second of day, nanosecond)` in the ranges of
+every value the model creates and outside chrono's leap-second representation (`TsPlain`: 0 ≤ sec < 86400,
+0 ≤ ns < 10^9), the comparison is the comparison of the instants `tsTotal = (day·86400 + sec)·10^9 + ns` in
+nanoseconds — the same `tsTotal` timestamp subtraction uses. -/
+theorem cmp_timestamp_instant (op : CmpOp) (l r : Expr) (d s f d' s' f' : Int)
+    (hl : eval O env l = .ok (.timestamp d s f)) (hr : eval O env r = .ok (.timestamp d' s' f'))
+    (v : TsPlain s f) (v' : TsPlain s' f') :
+    eval O env (.compare op l r) = .ok (.bool (applyCmp op (compare (tsTotal d s f) (tsTotal d' s' f')))) := by
+  have hp : PlainComparable O (.timestamp d s f) (.timestamp d' s' f') := by
+    simp [PlainComparable, prepCompare, coerceTs, Outcome.bind, Value.isNull, typesComparable, Value.valueType]
+  rw [compare_is_order O env op l r _ _ hl hr hp rfl rfl]
+  simp only [compareValues, Value.cmp]
+  rw [ts_lex_eq_instant d s f d' s' f' v v']
+
+/-- with chrono's leap-second representation allowed (`TsValid`: 0 ≤ ns < 2·10^9; `create_timestamp` accepts
+microseconds up to 1 999 999 at second 59 of ANY minute): the order is chrono's derived order on
+`(date, secs, frac)` = the order of positions on a time line where every second is followed by room for its leap
+second (`tsLeapKey = (day·86400 + sec)·2·10^9 + ns`). A leap-second value `hh:mm:59 + 1.5 s` is therefore AFTER
+`hh:mm:59.999` and BEFORE `hh:(mm+1):00.2`, whereas the linear count `tsTotal` (which identifies the leap second with
+the first second of the next minute, as POSIX time does) would put it after `hh:(mm+1):00.2`:
+`leap_second_order_flag`. The sentence's "by instant" is met in chrono's sense (a leap second is its own second);
+the model mirrors chrono. -/
+theorem cmp_timestamp_leap (op : CmpOp) (l r : Expr) (d s f d' s' f' : Int)
+    (hl : eval O env l = .ok (.timestamp d s f)) (hr : eval O env r = .ok (.timestamp d' s' f'))
+    (v : TsValid s f) (v' : TsValid s' f') :
+    eval O env (.compare op l r) = .ok (.bool (applyCmp op (compare (tsLeapKey d s f) (tsLeapKey d' s' f')))) := by
+  have hp : PlainComparable O (.timestamp d s f) (.timestamp d' s' f') := by
+    simp [PlainComparable, prepCompare, coerceTs, Outcome.bind, Value.isNull, typesComparable, Value.valueType]
+  rw [compare_is_order O env op l r _ _ hl hr hp rfl rfl]
+  simp only [compareValues, Value.cmp]
+  rw [ts_lex_eq_leapKey d s f d' s' f' v v']
+
+/-- FLAG (kernel-checked witness): 2016-12-31 23:59:60.5 (leap representation: second 86399, 1.5·10^9 ns) is
+smaller than 2017-01-01 00:00:00.2 in the order, although its linear nanosecond count `tsTotal` is larger.
+(Arithmetic on such values is outside the model: `tsAdd`/subtraction answer `oracleMissing`.) -/
+theorem leap_second_order_flag :
+    Value.cmp (.timestamp 736329 86399 1500000000) (.timestamp 736330 0 200000000) = .lt ∧
+    compare (tsTotal 736329 86399 1500000000) (tsTotal 736330 0 200000000) = .gt ∧
+    TsValid 86399 1500000000 ∧ ¬ TsPlain 86399 1500000000 := by
+  refine ⟨by decide, by decide, by unfold TsValid; omega, by unfold TsPlain; omega⟩
+
+/-- where the ranges come from: timestamps made by timestamp ± interval (`tsOfTotal`) are `TsPlain`; timestamps
+made by `create_timestamp` from non-negative fields are `TsValid` -/
+theorem timestamp_ranges (t : Int) (y mo d h mi s us : Int) (v : Value)
+    (h0 : 0 ≤ h) (m0 : 0 ≤ mi) (s0 : 0 ≤ s) (u0 : 0 ≤ us) (hv : createTimestamp y mo d h mi s us = some v) :
+    (∃ dd ss ff, tsOfTotal t = .timestamp dd ss ff ∧ TsPlain ss ff) ∧
+    (∃ dd ss ff, v = .timestamp dd ss ff ∧ TsValid ss ff) :=
+  ⟨tsOfTotal_plain t, createTimestamp_valid y mo d h mi s us v h0 m0 s0 u0 hv⟩
+
+-- non-vacuity: 2024-01-01 00:00:01.5 > 2023-12-31 23:59:59.25 (day numbers from CE)
+example : TsPlain 1 500000000 ∧ TsPlain 86399 250000000 ∧
+    compare (tsTotal 738886 1 500000000) (tsTotal 738885 86399 250000000) = .gt := by
+  refine ⟨by unfold TsPlain; omega, by unfold TsPlain; omega, by decide⟩
+example : eval {} {} (.compare .gt (.value (.timestamp 738886 1 500000000)) (.value (.timestamp 738885 86399 250000000))) = .ok (.bool true) := rfl
+example : createTimestamp 2016 12 31 23 59 59 1500000 = some (.timestamp 736329 86399 1500000000) := rfl
 
 end Sqlgrep.Props.C03
